@@ -45,7 +45,7 @@ MANIFEST = {
 
 
 def plan(tier):
-    t = 300 if tier == "quick" else 2400
+    t = 300 if tier == "quick" else 900
     if tier == "quick":
         ap = [f"0:{r}" for r in range(3)]
     else:
